@@ -1,6 +1,7 @@
 package c17
 
 import (
+	"bytes"
 	"encoding/json"
 	"fmt"
 	"strings"
@@ -12,6 +13,8 @@ import (
 	liberrors "github.com/jsightapi/jsight-schema-go-library/errors"
 	libjson "github.com/jsightapi/jsight-schema-go-library/formats/json"
 	"github.com/jsightapi/jsight-schema-go-library/fs"
+	js "github.com/jsightapi/jsight-schema-go-library/notations/jschema"
+	"github.com/jsightapi/jsight-schema-go-library/rules/enum"
 
 	"verif/gen"
 	"verif/lib"
@@ -37,6 +40,9 @@ type RenderCase struct {
 
 type ParseCase struct {
 	Input string `json:"input"`
+	// Scanner: "" the JSON document scanner, "schema" the schema scanner, "enum" the enum-rule scanner
+	// (both on texts of their plain-JSON sublanguage: no exponents, no comments, no shortcuts)
+	Scanner string `json:"scanner,omitempty"`
 }
 
 type ValidCase struct {
@@ -251,11 +257,28 @@ func checkParse(t run.TB, c ParseCase) (judged bool) {
 				err = fmt.Errorf("panic: %v", r)
 			}
 		}()
-		err = libjson.New("doc", in).Check()
+		switch c.Scanner {
+		case "schema":
+			err = js.New("schema", c.Input).Check()
+		case "enum":
+			err = enum.New("@e", c.Input).Check()
+		default:
+			err = libjson.New("doc", in).Check()
+		}
 	}()
 	r := lib.Canon(err)
 	if r.OK {
 		return false // acceptance is C05's concern
+	}
+	if c.Scanner != "" {
+		if r.Code < 300 || r.Code > 303 {
+			// not a scanning error (the text is lexically fine for that scanner and fails later)
+			return false
+		}
+		// these scanners want their first value to be what they scan: an enum rule begins with "["
+		if first := strings.TrimLeft(c.Input, " \t\r\n"); c.Scanner == "enum" && first != "" && first[0] != '[' {
+			return false
+		}
 	}
 	if !r.HasPos {
 		run.Fail(t, chkParse, c, "parsing error without a position: %v", r)
@@ -298,6 +321,53 @@ func TestParsePositions(t *testing.T) {
 		run.Eval(chkParse, j && gen.Depth(v) >= 1, c.Input)
 		if j {
 			run.Label(fmt.Sprintf("parse-error:edit-%d", kind))
+			run.Sample(chkParse, c)
+		}
+	})
+}
+
+// The schema scanner and the enum-rule scanner on their plain-JSON sublanguage: the same edits, the
+// same reference (the first byte that cannot continue a JSON text cannot continue these texts
+// either, as long as the edit does not open one of their extensions: comments and annotations "/"
+// "#", shortcuts "@", or touches what they exclude: exponents).
+func TestParsePositionsOfTheOtherScanners(t *testing.T) {
+	run.SkipIfReplaying(t)
+	defer run.Done(t, chkParse)
+	rapid.Check(t, func(t *rapid.T) {
+		scanner := rapid.SampledFrom([]string{"schema", "enum"}).Draw(t, "scanner")
+		var v *ref.Value
+		if scanner == "enum" {
+			v = &ref.Value{Kind: ref.KArray}
+			for i, n := 0, rapid.IntRange(0, 6).Draw(t, "n"); i < n; i++ {
+				v.Items = append(v.Items, gen.Value(t, gen.DocOpts{Depth: 0, Width: 0, StrLen: 4}, "item"))
+			}
+		} else {
+			v = gen.Value(t, gen.DocOpts{Depth: 3, Width: 3, StrLen: 4, RootContainer: rapid.Bool().Draw(t, "rc")}, "v")
+		}
+		text := gen.Print(v, gen.RapidBlanks(t, "ws"))
+		if bytes.ContainsAny(text, "/#@eE") || len(text) == 0 {
+			return // (strings with these letters: an edit that flips a quote would expose them to the scanner)
+		}
+		var bad []byte
+		kind := rapid.IntRange(0, 3).Draw(t, "edit")
+		pos := rapid.IntRange(0, len(text)-1).Draw(t, "pos")
+		hostile := []byte{0x00, 0x1f, '\\', '"', '.', '+', '-', '0', ',', ':', ']', '}', 'x', 'q', '9'}
+		switch kind {
+		case 0:
+			bad = text[:pos]
+		case 1:
+			bad = append(append([]byte(nil), text[:pos]...), text[pos+1:]...)
+		case 2:
+			bad = append([]byte(nil), text...)
+			bad[pos] = rapid.SampledFrom(hostile).Draw(t, "byte")
+		default:
+			bad = append(append(append([]byte(nil), text[:pos]...), rapid.SampledFrom(hostile).Draw(t, "byte")), text[pos:]...)
+		}
+		c := ParseCase{Input: string(bad), Scanner: scanner}
+		j := checkParse(t, c)
+		run.Eval(chkParse, j, scanner, c.Input)
+		if j {
+			run.Label(fmt.Sprintf("parse-error:%s-scanner:edit-%d", scanner, kind))
 			run.Sample(chkParse, c)
 		}
 	})
